@@ -35,6 +35,37 @@ pub mod lock_model {
     pub fn acquisitions() -> usize {
         unsafe { ACQUISITIONS }
     }
+    /// lock level of the protected type: 1 = per-torrent peer map, 0 = shard map (anything else)
+    fn level<T>() -> usize {
+        // "aquatic_udp::swarm::PeerMap<..>" vs "aquatic_common::verif_shims::..IndexMap<..>":
+        // one byte decides (a str comparison would be a 27-iteration memcmp loop for CBMC)
+        let n = std::any::type_name::<T>().as_bytes();
+        if n.len() > 8 && n[8] == b'u' {
+            1
+        } else {
+            0
+        }
+    }
+    pub static mut HELD_LEVEL: [usize; 2] = [0, 0];
+    /// Lock order shard -> peer map: requesting a shard lock while a peer-map lock is held could
+    /// deadlock against a thread doing the opposite; the model asserts it never happens.
+    fn acquire_level<T>() {
+        let l = level::<T>();
+        unsafe {
+            if l == 0 {
+                assert!(HELD_LEVEL[1] == 0, "lock order: shard lock requested while a peer-map lock is held");
+            }
+            HELD_LEVEL[l] += 1;
+        }
+        acquire();
+    }
+    fn release_level<T>() {
+        let l = level::<T>();
+        unsafe {
+            HELD_LEVEL[l] -= 1;
+        }
+        release();
+    }
     fn acquire() {
         unsafe {
             HELD_TOTAL += 1;
@@ -78,7 +109,7 @@ pub mod lock_model {
             // suspended at a probe point: either way the real code would block forever here
             assert!(self.state.get() >= 0, "deadlock: read lock requested while write-locked");
             self.state.set(self.state.get() + 1);
-            acquire();
+            acquire_level::<T>();
             RwLockReadGuard { l: self }
         }
         pub fn upgradable_read(&self) -> RwLockUpgradableReadGuard<'_, T> {
@@ -86,13 +117,13 @@ pub mod lock_model {
             assert!(!self.upg.get(), "deadlock: second upgradable read");
             self.state.set(self.state.get() + 1);
             self.upg.set(true);
-            acquire();
+            acquire_level::<T>();
             RwLockUpgradableReadGuard { l: self }
         }
         pub fn write(&self) -> RwLockWriteGuard<'_, T> {
             assert!(self.state.get() == 0, "deadlock: write lock requested while locked");
             self.state.set(-1);
-            acquire();
+            acquire_level::<T>();
             RwLockWriteGuard { l: self }
         }
         /// harness access without locking (state inspection between operations)
@@ -116,7 +147,7 @@ pub mod lock_model {
     impl<'a, T> Drop for RwLockReadGuard<'a, T> {
         fn drop(&mut self) {
             self.l.state.set(self.l.state.get() - 1);
-            release();
+            release_level::<T>();
         }
     }
 
@@ -145,7 +176,7 @@ pub mod lock_model {
         fn drop(&mut self) {
             self.l.upg.set(false);
             self.l.state.set(self.l.state.get() - 1);
-            release();
+            release_level::<T>();
         }
     }
 
@@ -166,7 +197,7 @@ pub mod lock_model {
     impl<'a, T> Drop for RwLockWriteGuard<'a, T> {
         fn drop(&mut self) {
             self.l.state.set(0);
-            release();
+            release_level::<T>();
         }
     }
 
